@@ -36,3 +36,33 @@ Check C11_step_new_row : forall (o : opts) (now : Z) (s : state) (line : list N)
 Print Assumptions C11_step_new_row.
 
 
+
+(** ---- over ALL histories, generically: the latest carrier frame wins ---- *)
+From SQ Require Import Base Table Update TableProofs LatestWins.
+Local Open Scope N_scope.
+
+(** for ANY projection of the row and carrier/value functions satisfying the three one-step facts (sets, keeps, born), every trace of reader steps -- any number of reader runs, any times -- shows at each address the value of a reference fold over the same lines *)
+Theorem C11_latest_wins_generic : forall (o : opts) (V : Type) (p : row -> V) (carries : list N -> N -> bool) (val : list N -> V) (born : list N -> N -> V) (wild : list N -> N -> bool), (forall (now : Z) (s : state) (line : list N) (s' : state) (rf : bool) (df a : N) (r : row) (m : list N), step_line o now s line = Ok (s', rf, Applied df a) -> lookup (tbl s) a = Some r -> get_message line = Ok (Some m) -> wild m df = false -> carries m df = true -> exists r' : row, lookup (tbl s') a = Some r' /\ p r' = val m) -> (forall (now : Z) (s : state) (line : list N) (s' : state) (rf : bool) (df a : N) (r : row) (m : list N), step_line o now s line = Ok (s', rf, Applied df a) -> lookup (tbl s) a = Some r -> get_message line = Ok (Some m) -> wild m df = false -> carries m df = false -> exists r' : row, lookup (tbl s') a = Some r' /\ p r' = p r) -> (forall (now : Z) (s : state) (line : list N) (s' : state) (rf : bool) (df a : N) (m : list N), step_line o now s line = Ok (s', rf, Applied df a) -> lookup (tbl s) a = None -> get_message line = Ok (Some m) -> wild m df = false -> exists r' : row, lookup (tbl s') a = Some r' /\ p r' = born m df) -> forall (t : table) (h : list event) (t' : table), trace o t h t' -> NoDup (keys t) -> forall a : N, (forall e : event, In e h -> line_test o wild a (fst e) = false) -> option_map p (lookup t' a) = rlookup (ref_run o V carries val born (proj p t) h) a.
+Proof. exact latest_wins_trace. Qed.
+Check C11_latest_wins_generic : forall (o : opts) (V : Type) (p : row -> V) (carries : list N -> N -> bool) (val : list N -> V) (born : list N -> N -> V) (wild : list N -> N -> bool), (forall (now : Z) (s : state) (line : list N) (s' : state) (rf : bool) (df a : N) (r : row) (m : list N), step_line o now s line = Ok (s', rf, Applied df a) -> lookup (tbl s) a = Some r -> get_message line = Ok (Some m) -> wild m df = false -> carries m df = true -> exists r' : row, lookup (tbl s') a = Some r' /\ p r' = val m) -> (forall (now : Z) (s : state) (line : list N) (s' : state) (rf : bool) (df a : N) (r : row) (m : list N), step_line o now s line = Ok (s', rf, Applied df a) -> lookup (tbl s) a = Some r -> get_message line = Ok (Some m) -> wild m df = false -> carries m df = false -> exists r' : row, lookup (tbl s') a = Some r' /\ p r' = p r) -> (forall (now : Z) (s : state) (line : list N) (s' : state) (rf : bool) (df a : N) (m : list N), step_line o now s line = Ok (s', rf, Applied df a) -> lookup (tbl s) a = None -> get_message line = Ok (Some m) -> wild m df = false -> exists r' : row, lookup (tbl s') a = Some r' /\ p r' = born m df) -> forall (t : table) (h : list event) (t' : table), trace o t h t' -> NoDup (keys t) -> forall a : N, (forall e : event, In e h -> line_test o wild a (fst e) = false) -> option_map p (lookup t' a) = rlookup (ref_run o V carries val born (proj p t) h) a.
+Print Assumptions C11_latest_wins_generic.
+
+(** hence the most recent carrier frame of an aircraft determines the parameter, as long as the row is not swept *)
+Theorem C11_latest_carrier_wins : forall o : opts, (0 < delete_after o)%Z -> forall (V : Type) (p : row -> V) (carries : list N -> N -> bool) (val : list N -> V) (born : list N -> N -> V) (wild : list N -> N -> bool), (forall (now : Z) (s : state) (line : list N) (s' : state) (rf : bool) (df a : N) (r : row) (m : list N), step_line o now s line = Ok (s', rf, Applied df a) -> lookup (tbl s) a = Some r -> get_message line = Ok (Some m) -> wild m df = false -> carries m df = true -> exists r' : row, lookup (tbl s') a = Some r' /\ p r' = val m) -> (forall (now : Z) (s : state) (line : list N) (s' : state) (rf : bool) (df a : N) (r : row) (m : list N), step_line o now s line = Ok (s', rf, Applied df a) -> lookup (tbl s) a = Some r -> get_message line = Ok (Some m) -> wild m df = false -> carries m df = false -> exists r' : row, lookup (tbl s') a = Some r' /\ p r' = p r) -> (forall (now : Z) (s : state) (line : list N) (s' : state) (rf : bool) (df a : N) (m : list N), step_line o now s line = Ok (s', rf, Applied df a) -> lookup (tbl s) a = None -> get_message line = Ok (Some m) -> wild m df = false -> exists r' : row, lookup (tbl s') a = Some r' /\ p r' = born m df) -> forall (t1 : table) (line ks : list N) (post : list (option (list N) * list N)) (t' : table) (df a : N) (m : list N), NoDup (keys t1) -> trace o t1 ((Some line, ks) :: post) t' -> classify o line = Ok (Applied df a) -> get_message line = Ok (Some m) -> carries m df = true -> wild m df = false -> In a (keys t1) \/ born m df = val m -> (forall e : option (list N) * list N, In e post -> line_test o carries a (fst e) = false /\ line_test o wild a (fst e) = false /\ In a (snd e)) -> exists r : row, lookup t' a = Some r /\ p r = val m.
+Proof. exact latest_carrier_wins. Qed.
+Check C11_latest_carrier_wins : forall o : opts, (0 < delete_after o)%Z -> forall (V : Type) (p : row -> V) (carries : list N -> N -> bool) (val : list N -> V) (born : list N -> N -> V) (wild : list N -> N -> bool), (forall (now : Z) (s : state) (line : list N) (s' : state) (rf : bool) (df a : N) (r : row) (m : list N), step_line o now s line = Ok (s', rf, Applied df a) -> lookup (tbl s) a = Some r -> get_message line = Ok (Some m) -> wild m df = false -> carries m df = true -> exists r' : row, lookup (tbl s') a = Some r' /\ p r' = val m) -> (forall (now : Z) (s : state) (line : list N) (s' : state) (rf : bool) (df a : N) (r : row) (m : list N), step_line o now s line = Ok (s', rf, Applied df a) -> lookup (tbl s) a = Some r -> get_message line = Ok (Some m) -> wild m df = false -> carries m df = false -> exists r' : row, lookup (tbl s') a = Some r' /\ p r' = p r) -> (forall (now : Z) (s : state) (line : list N) (s' : state) (rf : bool) (df a : N) (m : list N), step_line o now s line = Ok (s', rf, Applied df a) -> lookup (tbl s) a = None -> get_message line = Ok (Some m) -> wild m df = false -> exists r' : row, lookup (tbl s') a = Some r' /\ p r' = born m df) -> forall (t1 : table) (line ks : list N) (post : list (option (list N) * list N)) (t' : table) (df a : N) (m : list N), NoDup (keys t1) -> trace o t1 ((Some line, ks) :: post) t' -> classify o line = Ok (Applied df a) -> get_message line = Ok (Some m) -> carries m df = true -> wild m df = false -> In a (keys t1) \/ born m df = val m -> (forall e : option (list N) * list N, In e post -> line_test o carries a (fst e) = false /\ line_test o wild a (fst e) = false /\ In a (snd e)) -> exists r : row, lookup t' a = Some r /\ p r = val m.
+Print Assumptions C11_latest_carrier_wins.
+
+(** instance: the callsign is that of the latest identification squitter (aircraft without DF18/20/21 traffic) *)
+Theorem C11_callsign_latest : forall o : opts, (0 < delete_after o)%Z -> forall (now : Z) (s : state) (pre : list (option (list N))) (line : list N) (post : list (option (list N))) (s' : state) (a : N) (m : list N), run_lines o now s (pre ++ Some line :: post) = Ok s' -> classify o line = Ok (Applied 17 a) -> get_message line = Ok (Some m) -> 1 <= field m 33 37 <= 4 -> (forall l : option (list N), In l post -> cs_line o a l = false /\ cs_wild_line o a l = false) -> exists r : row, lookup (tbl s') a = Some r /\ r_ais r = Some (Ia5.ais_spec m).
+Proof. exact callsign_is_latest_ident. Qed.
+Check C11_callsign_latest : forall o : opts, (0 < delete_after o)%Z -> forall (now : Z) (s : state) (pre : list (option (list N))) (line : list N) (post : list (option (list N))) (s' : state) (a : N) (m : list N), run_lines o now s (pre ++ Some line :: post) = Ok s' -> classify o line = Ok (Applied 17 a) -> get_message line = Ok (Some m) -> 1 <= field m 33 37 <= 4 -> (forall l : option (list N), In l post -> cs_line o a l = false /\ cs_wild_line o a l = false) -> exists r : row, lookup (tbl s') a = Some r /\ r_ais r = Some (Ia5.ais_spec m).
+Print Assumptions C11_callsign_latest.
+
+(** every reader run is such a trace *)
+Theorem C11_reader_run_is_trace : forall (o : opts) (now : Z) (ls : list (option (list N))) (s s' : state), run_lines o now s ls = Ok s' -> trace o (tbl s) (history o now s ls) (tbl s').
+Proof. exact run_lines_trace. Qed.
+Check C11_reader_run_is_trace : forall (o : opts) (now : Z) (ls : list (option (list N))) (s s' : state), run_lines o now s ls = Ok s' -> trace o (tbl s) (history o now s ls) (tbl s').
+Print Assumptions C11_reader_run_is_trace.
+
+
